@@ -15,3 +15,4 @@ func verifPoint(string, string)              {}
 func verifNote(string, string, uint64)       {}
 func verifFault(string) error                { return nil }
 func verifConnect(*sqlite3.SQLiteConn) error { return nil }
+func (feed *dcpFeed) verifID() string        { return "" }
